@@ -228,6 +228,14 @@ class DeliveryEngine(Engine):
                                      exotic=sw.choice([0.0, 0.1]), resolvable=clean and sw.random() < 0.7)
         for r in rows:
             r['values'][MARK] = r['row']
+        if prop == 'C03' and schema['assocs'] and st['marker'].random() < 0.04:
+            # one association is left unformalized (written with empty key lists, as serialize_association writes an
+            # association that has none): its former key columns are plain attributes, nothing is linked across it
+            a = st['marker'].choice(schema['assocs'])
+            for k in ('src_keys', 'tgt_keys'):
+                a[k] = []
+            for k in ('src_keys_as', 'tgt_keys_as'):
+                a.pop(k, None)
         rng = st['ops']
         sch = refstore.Schema(schema)
         in_assoc = set()
@@ -356,6 +364,7 @@ class DeliveryEngine(Engine):
         guard.arm(cfg.get('wall_s', self.WALL_S))
         violation = None
         step = -1
+        self.unformalized = None
         try:
             texts, rows, assoc_idx = self.statements(case)
             schema = dict(cfg['schema'])
@@ -407,6 +416,8 @@ class DeliveryEngine(Engine):
                 self.check_api(x, schema, sch, rows, expected, probes, m)
             if canons:
                 log.event('canon', stable_hash(canons[0][1]))
+            if self.unformalized:
+                raise Violation('join', self.unformalized, 'join:unformalized')
             if nlinks and len(used_routes) >= 2:
                 states.add(stable_hash((texts, cfg['plans'])))
             for i, a in enumerate(schema['assocs']):
@@ -458,6 +469,12 @@ class DeliveryEngine(Engine):
                 if r['kind'].upper() == a['tgt'].upper():
                     for other in x.navigate_many(by_row[r['row']]).nav(a['src'], a['rel'], a['tgt_phrase'])():
                         back.add((rowids.get(id(other), 'foreign'), r['row']))
+            if not a['src_keys'] and (got != expected[i] or back != expected[i]):
+                # the answer of the implementation for an association without keys is a known finding: noted, and
+                # raised by execute() after everything else of this run has been checked
+                self.unformalized = ('%s: R%d %s()->%s(): %d links across an association without key attributes, e.g. %s'
+                                     % (where, a['rel'], a['src'], a['tgt'], len(got), sorted(got, key=repr)[:4]))
+                continue
             if got != expected[i] or back != expected[i]:
                 missing = sorted(expected[i] - got)[:5]
                 extra = sorted(got - expected[i], key=repr)[:5]
